@@ -269,3 +269,16 @@ func SkipsSome(xs []int) {
 		visit(x)
 	}
 }
+
+// --- grow-only maps ---
+
+type Pending struct{ gone map[string]struct{} }
+
+// MarksOnly only adds keys.
+func (p *Pending) MarksOnly(k string) { p.gone[k] = struct{}{} }
+
+// Unmarks deletes a key from the grow-only map through a local.
+func (p *Pending) Unmarks(k string) {
+	m := p.gone
+	delete(m, k)
+}
